@@ -5,7 +5,13 @@
    their stdlib primitive (the documented lossy representations are exactly the ones that do
    not): decoding what the generated packer produced gives the value back, built from the
    same concrete classes (equality of [pv] terms distinguishes list/tuple/set/frozenset,
-   bytes/bytearray, classes, enum classes and leaf kinds). *)
+   bytes/bytearray, classes, enum classes and leaf kinds).
+   NamedTuple (as_list form) and TypedDict (total / total=False / Required / NotRequired keys)
+   are part of the grammar.  [conf_ord] is conformance ([conf]) plus: the keys of every
+   TypedDict value come in the order the decoder rebuilds (required keys, then optional keys,
+   each in declaration order).  Python's == on dicts ignores the order, equality of [pv] terms
+   does not, hence the side condition; the harness compares with == and feeds TypedDict values
+   in shuffled insertion order. *)
 From Coq Require Import List String ZArith Bool.
 From Verif Require Import Core TyModel TyProofs TyRoundtrip.
 Import ListNotations.
@@ -14,20 +20,25 @@ Import ListNotations.
 Theorem C01_roundtrip : forall (E: senv) (P: prims),
   forallb cls_ok E = true ->
   forall (v: pv) (t: sty) (w: pv),
-    conf E v t = true -> lossless t = true -> vals_ok P v = true ->
+    conf_ord E v t = true -> lossless t = true -> vals_ok P v = true ->
     ref_enc E P v t = Ok w -> ref_dec E P w t = Ok v.
 Proof. intros E P HE v. exact (ref_roundtrip E P HE v). Qed.
 Print Assumptions C01_roundtrip.
+
+(* the side condition is conformance plus the TypedDict key order, nothing else *)
+Theorem C01_conf_ord_is_conf : forall (E: senv) (v: pv) (t: sty), conf_ord E v t = true -> conf E v t = true.
+Proof. exact conf_ord_conf. Qed.
+Print Assumptions C01_conf_ord_is_conf.
 
 (* generated code level: BasicDecoder(T).decode(BasicEncoder(T).encode(v)) == v *)
 Theorem C01_roundtrip_codec : forall (E: senv) (P: prims),
   forallb cls_ok E = true ->
   forall (v: pv) (t: sty) (w: pv),
-    conf E v t = true -> lossless t = true -> vals_ok P v = true ->
+    conf_ord E v t = true -> lossless t = true -> vals_ok P v = true ->
     pk E P v (cp true t) = Ok w -> uk E P w (cu true t) = Ok v.
 Proof.
   intros E P HE v t w HC HL HV Hpk.
-  rewrite (encode_is_ref E P v t HC) in Hpk.
+  rewrite (encode_is_ref true E P v t HC) in Hpk.
   rewrite (decode_is_ref E P w t).
   exact (ref_roundtrip E P HE v t w HC HL HV Hpk).
 Qed.
@@ -44,18 +55,18 @@ Definition exP : prims := {|
   p_b64dec := fun v => match v with VStr s => Some s | _ => None end;
   p_int := fun _ => None; p_float := fun _ => None; p_str := fun _ => None |}.
 Definition exE : senv :=
-  [ {| sc_name := "D"; sc_fields :=
-         [ {| sf_name := "a"; sf_ty := SList (SLeaf "date"); sf_default := None |};
-           {| sf_name := "s"; sf_ty := SSet false SIntT; sf_default := None |};
-           {| sf_name := "m"; sf_ty := SDict SStrT (SOpt (SEnum "E")); sf_default := None |};
-           {| sf_name := "b"; sf_ty := SBytes false; sf_default := None |};
-           {| sf_name := "n"; sf_ty := SOpt (SData "D"); sf_default := Some VNone |} ] |} ].
+  [ {| sc_kind := KData; sc_name := "D"; sc_fields :=
+         [ {| sf_name := "a"; sf_ty := SList (SLeaf "date"); sf_default := None; sf_opt := false |};
+           {| sf_name := "s"; sf_ty := SSet false SIntT; sf_default := None; sf_opt := false |};
+           {| sf_name := "m"; sf_ty := SDict SStrT (SOpt (SEnum "E")); sf_default := None; sf_opt := false |};
+           {| sf_name := "b"; sf_ty := SBytes false; sf_default := None; sf_opt := false |};
+           {| sf_name := "n"; sf_ty := SOpt (SData "D"); sf_default := Some VNone; sf_opt := false |} ] |} ].
 Definition exV : pv :=
   VObj "D" [("a", VList [VLeaf "date" "2024-01-02"]); ("s", VSet false [VInt 1; VInt 2]);
             ("m", VDict [(VStr "k", VEnum "E" "A"); (VStr "z", VNone)]); ("b", VBytes false "xy");
             ("n", VObj "D" [("a", VList []); ("s", VSet false []); ("m", VDict []); ("b", VBytes false ""); ("n", VNone)])].
 Example C01_nonvacuous :
-  forallb cls_ok exE = true /\ conf exE exV (SData "D") = true /\ lossless (SData "D") = true /\
+  forallb cls_ok exE = true /\ conf_ord exE exV (SData "D") = true /\ lossless (SData "D") = true /\
   vals_ok exP exV = true /\
   exists w, pk exE exP exV (cp true (SData "D")) = Ok w /\ uk exE exP w (cu true (SData "D")) = Ok exV.
 Proof. repeat split; try (vm_compute; reflexivity). eexists. split; vm_compute; reflexivity. Qed.
@@ -65,12 +76,43 @@ Proof. repeat split; try (vm_compute; reflexivity). eexists. split; vm_compute; 
 Theorem C01_roundtrip_total : forall (E: senv) (P: prims),
   forallb cls_ok E = true ->
   forall (v: pv) (t: sty),
-    conf E v t = true -> lossless t = true -> vals_ok P v = true ->
+    conf_ord E v t = true -> lossless t = true -> vals_ok P v = true ->
     exists w, pk E P v (cp true t) = Ok w /\ uk E P w (cu true t) = Ok v.
 Proof.
   intros E P HE v t HC HL HV.
-  destruct (ref_enc_total E P v t HC HV) as [w Hw].
-  exists w. rewrite (encode_is_ref E P v t HC). split; [exact Hw|].
+  destruct (ref_enc_total true E P v t HC HV) as [w Hw].
+  exists w. rewrite (encode_is_ref true E P v t HC). split; [exact Hw|].
   rewrite (decode_is_ref E P w t). exact (ref_roundtrip E P HE v t w HC HL HV Hw).
 Qed.
 Print Assumptions C01_roundtrip_total.
+
+(* non-vacuity for NamedTuple / TypedDict: a NamedTuple with a fixed-tuple default and a
+   TypedDict with an optional key (absent in one value, present in the other), nested *)
+Definition ntE : senv :=
+  [ {| sc_kind := KNamed; sc_name := "NT"; sc_fields :=
+         [ {| sf_name := "a"; sf_ty := SIntT; sf_default := None; sf_opt := false |};
+           {| sf_name := "b"; sf_ty := STupleFix [SIntT; SIntT]; sf_default := Some (VTuple [VInt 0; VInt 0]); sf_opt := false |};
+           {| sf_name := "c"; sf_ty := SOpt (STyped "TD"); sf_default := Some VNone; sf_opt := false |} ] |};
+    {| sc_kind := KTyped; sc_name := "TD"; sc_fields :=
+         [ {| sf_name := "o"; sf_ty := SLeaf "date"; sf_default := None; sf_opt := true |};
+           {| sf_name := "r"; sf_ty := SList (SNamed "NT"); sf_default := None; sf_opt := false |} ] |} ].
+Definition ntV : pv :=
+  VNT "NT" [VInt 1; VTuple [VInt 2; VInt 3];
+            VDict [(VStr "r", VList [VNT "NT" [VInt 4; VTuple [VInt 5; VInt 6]; VNone]]); (VStr "o", VLeaf "date" "2024-01-02")]].
+Example C01_named_typed_nonvacuous :
+  forallb cls_ok ntE = true /\ conf_ord ntE ntV (SNamed "NT") = true /\ lossless (SNamed "NT") = true /\
+  vals_ok exP ntV = true /\
+  pk ntE exP ntV (cp true (SNamed "NT")) =
+    Ok (VList [VInt 1; VList [VInt 2; VInt 3];
+               VDict [(VStr "r", VList [VList [VInt 4; VList [VInt 5; VInt 6]; VNone]]); (VStr "o", VStr "2024-01-02")]]) /\
+  exists w, pk ntE exP ntV (cp true (SNamed "NT")) = Ok w /\ uk ntE exP w (cu true (SNamed "NT")) = Ok ntV.
+Proof. repeat split; try (vm_compute; reflexivity). eexists. split; vm_compute; reflexivity. Qed.
+
+(* the order side condition is needed for = (not for ==): the same dict with the optional key
+   first conforms, but comes back with its keys in canonical order *)
+Example C01_typed_order_canonicalised :
+  let v := VDict [(VStr "o", VLeaf "date" "2024-01-02"); (VStr "r", VList [])] in
+  conf ntE v (STyped "TD") = true /\ conf_ord ntE v (STyped "TD") = false /\
+  (w <- pk ntE exP v (cp true (STyped "TD")) ;; uk ntE exP w (cu true (STyped "TD")))
+    = Ok (VDict [(VStr "r", VList []); (VStr "o", VLeaf "date" "2024-01-02")]).
+Proof. repeat split; vm_compute; reflexivity. Qed.
